@@ -26,7 +26,7 @@ NIL = {"t": "nil"}
 def sqf_tree(t):
     k = t["t"]
     if k == "n":
-        return str(t["n"])
+        return t.get("txt", str(t["n"]))
     if k == "s":
         return '"' + t["s"].replace('"', '""') + '"'
     if k == "b":
@@ -40,6 +40,9 @@ def sqf_tree(t):
     if k == "h":
         return "createHashMapFromArray [" + ",".join("[%s,%s]" % (sqf_tree(p[0]), sqf_tree(p[1])) for p in t["src"]) + "]"
     raise vlib.MachineryError("tree " + k)
+
+
+NEG0 = {"t": "n", "n": 0, "txt": "-0"}      # negative zero: another denotation of the scalar 0
 
 
 def fold(t):
@@ -65,6 +68,8 @@ def want(t):
         return {"t": "h", "h": items}
     if k == "c":
         return {"t": "c", "c": t["print"]}
+    if k == "n":
+        return {"t": "n", "n": t["n"]}
     return t
 
 
@@ -72,7 +77,9 @@ def H(*pairs):
     # dictionary semantics applied by the generator: later pairs overwrite
     d = []
     for k, v in pairs:
-        d = [p for p in d if json.dumps(p[0]) != json.dumps(k)] + [[k, v]]
+        old = [p for p in d if json.dumps(want(p[0])) == json.dumps(want(k))]
+        # an existing entry keeps its stored key, the value is overwritten
+        d = [p if p not in old else [p[0], v] for p in d] if old else d + [[k, v]]
     return {"t": "h", "h": d, "src": [list(p) for p in pairs]}
 
 
@@ -81,7 +88,7 @@ def C(text, printed):
 
 
 def value_pools(rng, tier):
-    base = [N(0), N(0), N(1), N(-1), S("a"), S("A"), S("a"), S(""), S("ab"), S("aB"), B(True), B(False), B(True),
+    base = [N(0), N(0), NEG0, A(NEG0), A(N(1), A(NEG0)), H((NEG0, N(1))), N(1), N(-1), S("a"), S("A"), S("a"), S(""), S("ab"), S("aB"), B(True), B(False), B(True),
             A(), A(), A(N(0)), A(N(0)), A(N(1)), A(S("a")), A(S("A")), A(A(N(0))), A(A(N(0))), A(N(0), N(1)), A(N(1), N(0)),
             A(NIL), A(N(0), NIL), A(B(True)), A(A()), A(A(), A()),
             C("{1}", "{ 1 }"), C("{1}", "{ 1 }"), C("{2}", "{ 2 }"), C("{_x + 1}", "{ _x + 1 }"),
@@ -90,7 +97,7 @@ def value_pools(rng, tier):
             H((N(1), N(2)), (N(3), N(4)), (N(5), N(6)), (N(7), N(8))), H((N(7), N(8)), (N(5), N(6)), (N(3), N(4)), (N(1), N(2)))]
     pools = [base]
     # random pools of nested values (seeded)
-    atoms = [N(0), N(1), N(2), S("a"), S("A"), S("b"), B(True), B(False)]
+    atoms = [N(0), NEG0, N(1), N(2), S("a"), S("A"), S("b"), B(True), B(False)]
 
     def rnd(depth):
         r = rng.random()
@@ -108,7 +115,7 @@ def value_pools(rng, tier):
 
 # ---------------- map histories ----------------
 def key_sqf(key):
-    return "k" if key["k"] == "kvar" else sqf_tree(key["v"])
+    return "k" if key["k"] == "kvar" else key.get("txt") or sqf_tree(key["v"])
 
 
 def map_sqf(op):
@@ -133,10 +140,14 @@ def map_sqf(op):
         return "k = [%s]" % ",".join(sqf_tree(e) for e in op["elems"]), False
     if k == "mutk":
         return "k pushBack 9", False
+    if k == "newkj":
+        return "k = [j, 0]", False
+    if k == "mutj":
+        return "j pushBack 9", False
     raise vlib.MachineryError("map op " + k)
 
 
-SETUP = {"sqf": "m = createHashMap; n = createHashMap; k = []", "op": {"op": "setup"}}
+SETUP = {"sqf": "m = createHashMap; n = createHashMap; k = []; j = [3]", "op": {"op": "setup"}}
 
 
 def map_cases(hists, prefix):
@@ -153,13 +164,15 @@ def map_cases(hists, prefix):
 def random_map_histories(rng, n, length):
     lit = lambda t: {"k": "lit", "v": t}
     keys = [lit(N(0)), lit(N(1)), lit(S("a")), lit(S("A")), lit(B(True)), lit(A(N(0))), lit(A(N(0), N(9))), lit(A(A(N(0)))),
-            lit(A(N(0), N(9), N(9))), lit(A()), {"k": "kvar"}]
+            lit(A(N(0), N(9), N(9))), lit(A()), {"k": "kvar"}, {"k": "kvar"},
+            {"k": "lit", "v": N(0), "txt": "-0"}, {"k": "lit", "v": A(N(0)), "txt": "[-0]"}, {"k": "lit", "v": A(A(N(0))), "txt": "[[-0]]"},
+            lit(A(A(N(3)), N(0))), lit(A(A(N(3), N(9)), N(0))), lit(A(A(N(3), N(9), N(9)), N(0))), lit(A(A(N(3)), N(0), N(9)))]
     vals = [N(5), N(6), S("x"), A(N(1))]
     out = []
     for _ in range(n):
         h = []
         for _ in range(length):
-            k = rng.choice(["set", "set", "set", "get", "del", "in", "count", "fromArray", "copy", "newk", "mutk", "mutk", "create"])
+            k = rng.choice(["set", "set", "set", "get", "del", "in", "count", "fromArray", "copy", "newk", "mutk", "mutk", "newkj", "newkj", "mutj", "mutj", "create"])
             m = rng.choice(MAPS)
             if k in ("get", "del", "in"):
                 op = {"op": k, "m": m, "key": rng.choice(keys)}
@@ -174,22 +187,23 @@ def random_map_histories(rng, n, length):
             elif k == "newk":
                 op = {"op": k, "elems": [N(0)] * rng.randint(0, 2)}
             else:
-                op = {"op": "mutk"}
+                op = {"op": k}
             h.append(op)
         out.append(h)
     return out
 
 
-def mc_cfg(name, depth, emit, captured=True):
+def mc_cfg(name, depth, emit, captured=True, deep=True):
     cfg = """SPECIFICATION Spec
 CONSTANTS
   MapVars = {"m", "n"}
   KeysCapturedByValue = %s
+  KeysCapturedDeep = %s
   Depth = %d
   Emit = %s
-VIEW View
+VIEW %s
 INVARIANTS InvDict InvKeyCaptured InvCopyIndependent
-""" % ("TRUE" if captured else "FALSE", depth, "TRUE" if emit else "FALSE")
+""" % ("TRUE" if captured else "FALSE", "TRUE" if deep else "FALSE", depth, "TRUE" if emit else "FALSE", "View" if emit else "ViewStep")
     p = os.path.join(vlib.SPEC, "gen_" + name + ".cfg")
     open(p, "w").write(cfg)
     return os.path.basename(p)
@@ -237,9 +251,18 @@ def run(rep, tier, seed, replay):
     rep.extra["triples_checked"] = sum(len(p) ** 3 for p in pools)
     cmap = {c["id"]: (c, p) for c, p in zip(table_cases, pools)}
     for b in r.verdicts[-1]["bad"]:
-        if b["why"].startswith("MACHINERY"):
-            raise vlib.MachineryError("pool value did not evaluate to the intended tree: %s" % b)
         c, p = cmap[b["id"]]
+        if b["why"].startswith("MACHINERY"):
+            # which pool value is not the denoted tree? A map literal that does not come out as the dictionary of its
+            # pairs is a violation of the finite-map clause; anything else is a defect of the generator / projection.
+            t = [x for x in lines if x["id"] == b["id"]][0]
+            off = [i for i in range(len(p)) if t["vals"][i] != t["want"][i]]
+            if off and all('"t": "h"' in json.dumps(p[i]) for i in off):
+                key = "C07/MapIsDict-content/fromArray"
+                rep.finding(key, "MapIsDict-content: %s evaluates to %s" % (c["exprs"][off[0]], json.dumps(t["vals"][off[0]])[:300]),
+                            {"property": "C07", "key": key, "table_cases": [c], "pools": [p], "verdict": b})
+                continue
+            raise vlib.MachineryError("pool value did not evaluate to the intended tree: %s %s" % (b, [c["exprs"][i] for i in off][:3]))
         key = "C07/%s/%s" % (b["why"], b["op"])
         wi, wj = b.get("i", 0), b.get("j", 0)
         what = "%s: %s vs %s" % (b["why"], c["exprs"][wi - 1] if wi else "?", c["exprs"][wj - 1] if wj else "?")
@@ -256,6 +279,10 @@ def run(rep, tier, seed, replay):
         if m2.violated not in ("InvDict", "InvKeyCaptured"):
             raise vlib.MachineryError("vacuity self-test: deviation HSetAliasKey must be refuted, TLC said %s" % m2.violated)
         rep.design_runs.append({"what": "deviation HSetAliasKey violates %s (non-vacuity)" % m2.violated, "generated": m2.generated, "distinct": m2.distinct})
+        m3 = vlib.tlc("HashMap_MC", mc_cfg("hm_dev2", 4, False, deep=False), workers=4, timeout_s=600)
+        if m3.violated not in ("InvDict", "InvKeyCaptured"):
+            raise vlib.MachineryError("vacuity self-test: deviation shallow key capture must be refuted, TLC said %s" % m3.violated)
+        rep.design_runs.append({"what": "deviation KeysCapturedDeep=FALSE (inner arrays of a key stay aliased) violates %s (non-vacuity)" % m3.violated, "generated": m3.generated, "distinct": m3.distinct})
         g = vlib.tlc("HashMap_MC", mc_cfg("hm_gen", d, True), workers=vlib.NCPU, timeout_s=1500, xmx="16g")
         if not g.ok:
             raise vlib.MachineryError("HashMap generator failed")
